@@ -73,7 +73,8 @@ pub fn floats_boundary(thorough: bool) -> Vec<f32> {
     v
 }
 pub fn names() -> Vec<String> {
-    vec!["A".to_string(), "B".to_string(), "true".to_string()]
+    // short names, and long ones that differ only in their tail / in one inner byte (word-wise comparisons)
+    ["A", "B", "true", "variable_1", "variable_2", "abcdefgh", "abcdefgX", "abcdefghijklmnop1", "abcdefghijklmnop2", "Xbcdefghijklmnop1"].iter().map(|s| s.to_string()).collect()
 }
 pub fn code_atoms() -> Vec<Tree> {
     vec![Tree::I(1), Tree::I(2), Tree::I(11), Tree::F(1.5), Tree::B(true), Tree::name("A"), Tree::ins("NOOP"), Tree::ins("INTEGER.+")]
@@ -193,6 +194,52 @@ impl Alpha {
     }
 }
 
+pub fn graph_large() -> G {
+    // 12 nodes on a ring with chords to node 1 (in-degree 6 at node 1)
+    let mut g = G::default();
+    for k in 1..=12usize {
+        g.nodes.insert(k, (k % 3) as i32);
+    }
+    for k in 1..=12usize {
+        let d = k % 12 + 1;
+        g.edges.entry(d).or_default().push((k, k as f32 * 0.5));
+        if k % 2 == 1 && k != 1 && d != 1 {
+            g.edges.entry(1).or_default().push((k, 0.25));
+        }
+    }
+    g
+}
+
+impl Alpha {
+    /// few but LARGE values per kind (lengths and sizes around 16, 32, 64, 100): instances beyond the
+    /// enumerated range, where chunked / thresholded / fast-path code first differs
+    pub fn large() -> Alpha {
+        let wide = Tree::L((0..33).map(|k| if k % 4 == 1 { Tree::L(vec![Tree::I(k), Tree::L(vec![Tree::name("A")])]) } else { Tree::I(k) }).collect());
+        let mut nest = Tree::L(vec![Tree::I(0)]);
+        for k in 1..20 {
+            nest = Tree::L(vec![Tree::I(k), nest, Tree::F(k as f32)]);
+        }
+        Alpha {
+            bools: vec![true, false],
+            ints: vec![IMIN, -33, -1, 0, 1, 9, 10, 17, 33, 101, IMAX],
+            floats: vec![0.0, 0.5, -2.5, f32::NAN],
+            names: vec!["abcdefghijklmnop1".to_string(), "abcdefghijklmnop2".to_string()],
+            codes: vec![wide, nest, Tree::L((0..101).map(|_| Tree::ins("NOOP")).collect())],
+            bvs: vec![(0..33).map(|k| k % 3 == 0).collect(), (0..70).map(|k| (k * 37) % 5 < 2).collect()],
+            ivs: vec![(0..33).map(|k| ((k * 37) % 33) as i32 - 5).collect(), (0..70).map(|k| 100 + 7 * k as i32).collect()],
+            fvs: vec![
+                (0..24).map(|k| if k == 4 { f32::NAN } else { (24 - k) as f32 }).collect(),
+                (0..70).map(|k| if k == 35 { f32::INFINITY } else if k % 7 == 3 { f32::NAN } else { ((k * 37) % 70) as f32 }).collect(),
+                (0..33).map(|k| 1.5 + k as f32).collect(),
+            ],
+            idxs: vec![(0, 0), (5, 100)],
+            msgs: vec![Msg { header: (0..20).collect(), body: (0..40).map(|k| k % 3 == 0).collect() }, Msg { header: vec![1], body: vec![true] }, Msg { header: (0..9).collect(), body: (0..17).map(|k| k % 2 == 0).collect() }],
+            graphs: vec![graph_small(), graph_large()],
+            deep: false,
+        }
+    }
+}
+
 fn tuples<T: Clone>(pool: &[T], k: usize) -> Vec<Vec<T>> {
     let mut out: Vec<Vec<T>> = vec![vec![]];
     for _ in 0..k {
@@ -220,7 +267,20 @@ fn with_depths<T: Clone>(pool: &[T], need: usize, deep: bool, bystanders: &[T]) 
                 w
             })
             .collect();
+        // a deep stack below the operands (8 more items): every fourth operand tuple
+        let deeper: Vec<Vec<T>> = out
+            .iter()
+            .step_by(4)
+            .map(|t| {
+                let mut w = t.clone();
+                for _ in 0..4 {
+                    w.extend(bystanders.iter().cloned());
+                }
+                w
+            })
+            .collect();
         out.extend(extra);
+        out.extend(deeper);
     }
     out
 }
